@@ -53,6 +53,8 @@ def build(tier):
         Target('fletcher_zoom', [fz(), upd()], H, replace=['lsearchk_update']),
         Target('fletcher_do_get', [fd, fz(), upd(), hd()], H, replace=['lsearchk_update', 'fletcher_zoom']),
     ]
+    import cgd
+    targets += cgd.targets(COMMON, upd, hd)
     import pred_smt
     import step_smt
     vcs, fns = pred_smt.build()
